@@ -139,6 +139,8 @@ pub fn observe(w: &CliWorld, t: &Trial, with_tests: bool) -> Obs {
   // 3. rule tests: update snapshots, then verify
   if with_tests && w.with_tests {
     if t.incremental {
+      // an earlier revision of the project: different fixes, fewer test cases
+      w.write_rules(&root, true);
       w.write_tests(&root, true);
       let p1 = cli_run::run_cli(&root, &[s("sg"), s("test"), s("-U")], mix64(t.hash_seed ^ 5), None);
       let p2 = cli_run::run_cli(&root, &[s("sg"), s("test")], mix64(t.hash_seed ^ 6), None);
@@ -148,6 +150,7 @@ pub fn observe(w: &CliWorld, t: &Trial, with_tests: bool) -> Obs {
         o.events_hash = events_hash;
         return o;
       }
+      w.write_rules(&root, false);
       w.write_tests(&root, false);
     }
     let t1 = cli_run::run_cli(&root, &[s("sg"), s("test"), s("-U")], mix64(t.hash_seed ^ 3), None);
@@ -338,7 +341,7 @@ impl Simulation for C13Sim {
   }
   fn tier(&self, name: &str) -> TierCfg {
     if name == "thorough" {
-      TierCfg { name: "thorough".into(), max_runs: 9_000, secs: 900 }
+      TierCfg { name: "thorough".into(), max_runs: 30_000, secs: 900 }
     } else {
       TierCfg { name: "quick".into(), max_runs: 480, secs: 150 }
     }
